@@ -17,7 +17,7 @@ Definition idx_found (s : state) : Prop :=
 (* (ii) every slot leads to an entry that carries that id / path *)
 Definition idx_slots (s : state) : Prop :=
   (forall sd o e, al_get o (oids s sd) = Some e -> oid_of s e sd = Some o) /\
-  (forall sd p o e, slot_get s sd p o = Some e -> oid_of s e sd = Some o /\ path_of s e sd = Some p).
+  (forall sd p o e, slot_get s sd p o = Some e -> oid_of s e sd = Some o /\ path_of s e sd = Some p /\ p <> []).
 (* (iii) at most one entry owns an id per side *)
 Definition idx_unique (s : state) : Prop :=
   forall e1 e2 sd o, oid_of s e1 sd = Some o -> oid_of s e2 sd = Some o -> e1 = e2.
@@ -241,4 +241,425 @@ Proof.
     simpl in H. destruct (nth_error (ents x0) e) as [en2|] eqn:E3; [|discriminate]. injection H as <-. split.
     + rewrite (iview_put_ent _ _ en2); [exact Hx1|exact E3|reflexivity].
     + exact Hx2.
+Qed.
+
+(* ------------------------------------------------------------------ effect of the primitive state transformers *)
+Lemma oids_st_oids s sd v sd' : oids (st_oids s sd v) sd' = if Bool.eqb sd' sd then v else oids s sd'.
+Proof. destruct sd, sd'; reflexivity. Qed.
+Lemma paths_st_oids s sd v sd' : paths (st_oids s sd v) sd' = paths s sd'.
+Proof. destruct sd, sd'; reflexivity. Qed.
+Lemma ents_st_oids s sd v : ents (st_oids s sd v) = ents s.
+Proof. destruct sd; reflexivity. Qed.
+Lemma oids_st_paths s sd v sd' : oids (st_paths s sd v) sd' = oids s sd'.
+Proof. destruct sd, sd'; reflexivity. Qed.
+Lemma paths_st_paths s sd v sd' : paths (st_paths s sd v) sd' = if Bool.eqb sd' sd then v else paths s sd'.
+Proof. destruct sd, sd'; reflexivity. Qed.
+Lemma ents_st_paths s sd v : ents (st_paths s sd v) = ents s.
+Proof. destruct sd; reflexivity. Qed.
+
+Lemma oid_of_st_oids s sd v e sd' : oid_of (st_oids s sd v) e sd' = oid_of s e sd'.
+Proof. unfold oid_of. rewrite ents_st_oids. reflexivity. Qed.
+Lemma path_of_st_oids s sd v e sd' : path_of (st_oids s sd v) e sd' = path_of s e sd'.
+Proof. unfold path_of. rewrite ents_st_oids. reflexivity. Qed.
+Lemma oid_of_st_paths s sd v e sd' : oid_of (st_paths s sd v) e sd' = oid_of s e sd'.
+Proof. unfold oid_of. rewrite ents_st_paths. reflexivity. Qed.
+Lemma path_of_st_paths s sd v e sd' : path_of (st_paths s sd v) e sd' = path_of s e sd'.
+Proof. unfold path_of. rewrite ents_st_paths. reflexivity. Qed.
+Lemma slot_get_st_oids s sd v sd' p o : slot_get (st_oids s sd v) sd' p o = slot_get s sd' p o.
+Proof. unfold slot_get. rewrite paths_st_oids. reflexivity. Qed.
+
+Lemma oids_raw_side s e sd f sd' : oids (raw_side s e sd f) sd' = oids s sd'.
+Proof. unfold raw_side. destruct (nth_error (ents s) e); destruct sd'; reflexivity. Qed.
+Lemma paths_raw_side s e sd f sd' : paths (raw_side s e sd f) sd' = paths s sd'.
+Proof. unfold raw_side. destruct (nth_error (ents s) e); destruct sd'; reflexivity. Qed.
+Lemma slot_get_raw_side s e sd f sd' p o : slot_get (raw_side s e sd f) sd' p o = slot_get s sd' p o.
+Proof. unfold slot_get. rewrite paths_raw_side. reflexivity. Qed.
+
+Lemma nth_list_upd {T} (l : list T) n x m :
+  nth_error (list_upd l n x) m = if Nat.eqb m n then (match nth_error l n with Some _ => Some x | None => None end) else nth_error l m.
+Proof.
+  revert n m. induction l as [|a l IH]; intros [|n] [|m]; simpl; try reflexivity.
+  - destruct (Nat.eqb m n); [destruct n; reflexivity|reflexivity].
+  - apply IH.
+Qed.
+
+Lemma gs_ss en sd x sd' : gs (ss en sd x) sd' = if Bool.eqb sd' sd then x else gs en sd'.
+Proof. destruct sd, sd'; reflexivity. Qed.
+
+Lemma oid_of_raw_side s e sd f e' sd' :
+  oid_of (raw_side s e sd f) e' sd' =
+  if Nat.eqb e' e && Bool.eqb sd' sd
+  then match nth_error (ents s) e with Some en => s_oid (f (gs en sd)) | None => None end
+  else oid_of s e' sd'.
+Proof.
+  unfold oid_of, raw_side. destruct (nth_error (ents s) e) as [en|] eqn:E.
+  - simpl. rewrite nth_list_upd, E. destruct (Nat.eqb_spec e' e) as [->|Hn]; simpl.
+    + rewrite gs_ss. destruct (Bool.eqb sd' sd); [reflexivity|rewrite E; reflexivity].
+    + reflexivity.
+  - destruct (Nat.eqb_spec e' e) as [->|Hn]; simpl; [|reflexivity].
+    rewrite E. destruct (Bool.eqb sd' sd); reflexivity.
+Qed.
+Lemma path_of_raw_side s e sd f e' sd' :
+  path_of (raw_side s e sd f) e' sd' =
+  if Nat.eqb e' e && Bool.eqb sd' sd
+  then match nth_error (ents s) e with Some en => s_path (f (gs en sd)) | None => None end
+  else path_of s e' sd'.
+Proof.
+  unfold path_of, raw_side. destruct (nth_error (ents s) e) as [en|] eqn:E.
+  - simpl. rewrite nth_list_upd, E. destruct (Nat.eqb_spec e' e) as [->|Hn]; simpl.
+    + rewrite gs_ss. destruct (Bool.eqb sd' sd); [reflexivity|rewrite E; reflexivity].
+    + reflexivity.
+  - destruct (Nat.eqb_spec e' e) as [->|Hn]; simpl; [|reflexivity].
+    rewrite E. destruct (Bool.eqb sd' sd); reflexivity.
+Qed.
+
+Lemma slot_get_slot_set s sd p o e sd' p' o' :
+  slot_get (slot_set s sd p o e) sd' p' o' =
+  if Bool.eqb sd' sd && str_eqb p' p && str_eqb o' o then Some e else slot_get s sd' p' o'.
+Proof.
+  unfold slot_get, slot_set. rewrite paths_st_paths.
+  destruct (Bool.eqb sd' sd) eqn:Es; simpl; [|reflexivity].
+  apply Bool.eqb_prop in Es. subst sd'.
+  rewrite al_get_set. destruct (str_eqb p' p) eqn:Ep; simpl; [|reflexivity].
+  apply str_eqb_eq in Ep. subst p'. rewrite al_get_set.
+  destruct (str_eqb o' o); [reflexivity|]. destruct (al_get p (paths s sd)); reflexivity.
+Qed.
+Lemma oids_slot_set s sd p o e sd' : oids (slot_set s sd p o e) sd' = oids s sd'.
+Proof. unfold slot_set. apply oids_st_paths. Qed.
+Lemma ents_slot_set s sd p o e : ents (slot_set s sd p o e) = ents s.
+Proof. unfold slot_set. apply ents_st_paths. Qed.
+
+Lemma slot_get_slot_pop s sd p k sd' p' o' :
+  slot_get (slot_pop s sd p (Some k)) sd' p' o' =
+  if Bool.eqb sd' sd && str_eqb p' p && str_eqb o' k then None else slot_get s sd' p' o'.
+Proof.
+  unfold slot_get, slot_pop.
+  destruct (al_get p (paths s sd)) as [d|] eqn:Ed.
+  - destruct (al_del k d) as [|a d'] eqn:Edel.
+    + rewrite paths_st_paths. destruct (Bool.eqb sd' sd) eqn:Es; simpl; [|reflexivity].
+      apply Bool.eqb_prop in Es. subst sd'. rewrite al_get_del.
+      destruct (str_eqb p' p) eqn:Ep; simpl; [|reflexivity].
+      apply str_eqb_eq in Ep. subst p'. rewrite Ed.
+      destruct (str_eqb o' k) eqn:Eo; [reflexivity|].
+      assert (H: al_get o' (al_del k d) = al_get o' d) by (rewrite al_get_del, Eo; reflexivity).
+      rewrite Edel in H. simpl in H. exact H.
+    + rewrite <- Edel. rewrite paths_st_paths. destruct (Bool.eqb sd' sd) eqn:Es; cbn [andb]; [|reflexivity].
+      apply Bool.eqb_prop in Es. subst sd'. rewrite al_get_set.
+      destruct (str_eqb p' p) eqn:Ep; cbn [andb]; [|reflexivity].
+      apply str_eqb_eq in Ep. subst p'. rewrite Ed, al_get_del. reflexivity.
+  - destruct (Bool.eqb sd' sd) eqn:Es; simpl; [|reflexivity].
+    apply Bool.eqb_prop in Es. subst sd'.
+    destruct (str_eqb p' p) eqn:Ep; simpl; [|reflexivity].
+    apply str_eqb_eq in Ep. subst p'. rewrite Ed. destruct (str_eqb o' k); reflexivity.
+Qed.
+Lemma slot_get_slot_pop_none s sd p sd' p' o' :
+  slot_get (slot_pop s sd p None) sd' p' o' = slot_get s sd' p' o'.
+Proof.
+  unfold slot_get, slot_pop.
+  destruct (al_get p (paths s sd)) as [d|] eqn:Ed; [|reflexivity].
+  destruct d as [|a d'].
+  - rewrite paths_st_paths. destruct (Bool.eqb sd' sd) eqn:Es; simpl; [|reflexivity].
+    apply Bool.eqb_prop in Es. subst sd'. rewrite al_get_del.
+    destruct (str_eqb p' p) eqn:Ep; simpl; [|reflexivity].
+    apply str_eqb_eq in Ep. subst p'. rewrite Ed. reflexivity.
+  - rewrite paths_st_paths. destruct (Bool.eqb sd' sd) eqn:Es; simpl; [|reflexivity].
+    apply Bool.eqb_prop in Es. subst sd'. rewrite al_get_set.
+    destruct (str_eqb p' p) eqn:Ep; simpl; [|reflexivity].
+    apply str_eqb_eq in Ep. subst p'. rewrite Ed. reflexivity.
+Qed.
+Lemma oids_slot_pop s sd p k sd' : oids (slot_pop s sd p k) sd' = oids s sd'.
+Proof.
+  unfold slot_pop. destruct (al_get p (paths s sd)) as [d|]; [|reflexivity].
+  destruct (match k with Some k0 => al_del k0 d | None => d end); apply oids_st_paths.
+Qed.
+Lemma ents_slot_pop s sd p k : ents (slot_pop s sd p k) = ents s.
+Proof.
+  unfold slot_pop. destruct (al_get p (paths s sd)) as [d|]; [|reflexivity].
+  destruct (match k with Some k0 => al_del k0 d | None => d end); apply ents_st_paths.
+Qed.
+
+(* ------------------------------------------------------------------ _change_oid *)
+Definition found1 (s : state) (e : eid) (sd : bool) : Prop :=
+  forall o, oid_of s e sd = Some o ->
+    al_get o (oids s sd) = Some e /\
+    (forall p, path_of s e sd = Some p -> p <> [] -> slot_get s sd p o = Some e).
+Definition unindexed (s : state) (e : eid) (sd : bool) : Prop :=
+  (forall o, al_get o (oids s sd) <> Some e) /\ (forall p o, slot_get s sd p o <> Some e).
+(* the invariant while entry e's side sd is being re-indexed *)
+Definition IdxX (s : state) (e : eid) (sd : bool) : Prop :=
+  (forall e' sd', (e' <> e \/ sd' <> sd) -> found1 s e' sd') /\ idx_slots s /\ (found1 s e sd \/ unindexed s e sd).
+
+Lemma IdxJ_X s e sd : IdxJ s -> IdxX s e sd.
+Proof. intros [Hf Hs]. split; [|split]; [intros e' sd' _ o; apply Hf|exact Hs|left; intros o; apply Hf]. Qed.
+Lemma IdxX_J s e sd : IdxX s e sd -> found1 s e sd -> IdxJ s.
+Proof.
+  intros [H1 [Hs _]] Hf. split; [|exact Hs]. intros e' sd' o.
+  destruct (Nat.eq_dec e' e) as [->|Hn]; [destruct (Bool.bool_dec sd' sd) as [->|Hn]|]; [apply Hf|apply H1; right; exact Hn|apply H1; left; exact Hn].
+Qed.
+
+Lemma IdxX_view s s' e sd : iview s = iview s' -> IdxX s e sd -> IdxX s' e sd.
+Proof.
+  intros Hv [H1 [[Ho Hp] H5]]. apply iview_eq in Hv as [He [Hoi Hpa]].
+  assert (Hsl: forall sd p o, slot_get s sd p o = slot_get s' sd p o) by (intros; apply slot_get_paths; apply Hpa).
+  assert (Hf: forall e sd, found1 s e sd -> found1 s' e sd).
+  { intros e0 sd0 Hf o H. rewrite <- (proj1 (He e0 sd0)) in H. apply Hf in H as [Ha Hb]. split.
+    - rewrite <- Hoi. exact Ha.
+    - intros p Hp1 Hp2. rewrite <- Hsl. apply Hb; [rewrite (proj2 (He e0 sd0)); exact Hp1|exact Hp2]. }
+  split; [|split; [split|]].
+  - intros e' sd' Hn. apply Hf. apply H1. exact Hn.
+  - intros sd0 o e0 H. rewrite <- Hoi in H. apply Ho in H. rewrite <- (proj1 (He e0 sd0)). exact H.
+  - intros sd0 p o e0 H. rewrite <- Hsl in H. apply Hp in H. rewrite <- (proj1 (He e0 sd0)), <- (proj2 (He e0 sd0)). exact H.
+  - destruct H5 as [H5|[Ha Hb]]; [left; apply Hf; exact H5|right]. split.
+    + intros o. rewrite <- Hoi. apply Ha.
+    + intros p o. rewrite <- Hsl. apply Hb.
+Qed.
+
+Lemma slots_unindexed s e sd : idx_slots s -> oid_of s e sd = None -> unindexed s e sd.
+Proof.
+  intros [Ho Hp] Hn. split.
+  - intros o H. apply Ho in H. congruence.
+  - intros p o H. apply Hp in H as [H _]. congruence.
+Qed.
+
+Definition oid_loop (rec : cmd -> state -> res state) (e : eid) (sd : bool) (old v : option str) (s : state) : res state :=
+  let step := oid_step rec e sd in
+  if ostr_eqb old v then step old s
+  else
+    y <- pop_swap s ;;
+    let '(sw, s0) := y in
+    if sw then (sx <- step v s0 ;; step old sx) else (sx <- step old s0 ;; step v sx).
+Definition oid_finish (fin : bool) (e : eid) (sd : bool) (v : option str) (s1 : state) : res state :=
+  en1 <- get_ent s1 e ;;
+  let s2 := match v with
+            | Some o =>
+              let sa := st_oids (raw_side s1 e sd (fun y => w_oid y (Some o))) sd (al_set o e (oids s1 sd)) in
+              let sb := match s_path (gs en1 sd) with
+                        | Some pp => if tstr (Some pp) then slot_set sa sd pp o e else sa
+                        | None => sa
+                        end in
+              if tchg (s_chg (gs en1 sd)) || tchg (s_chg (gs en1 (negb sd))) then cs_add sb e else sb
+            | None =>
+              if tchg (s_chg (gs en1 sd)) && negb (tchg (s_chg (gs en1 (negb sd)))) then cs_del s1 e else s1
+            end in
+  let s3 := dirty_add s2 e in
+  Ok (if fin then raw_side s3 e sd (fun y => w_oid y v) else s3).
+Lemma exec_oid_eq E f fin e sd v s :
+  exec E (S f) (COid fin e sd v) s =
+  (en <- get_ent s e ;; s1 <- oid_loop (exec E f) e sd (s_oid (gs en sd)) v s ;; oid_finish fin e sd v s1).
+Proof. reflexivity. Qed.
+
+Lemma oid_of_some_ent s e sd o : oid_of s e sd = Some o -> exists en, get_ent s e = Ok en /\ s_oid (gs en sd) = Some o.
+Proof. unfold oid_of, get_ent. destruct (nth_error (ents s) e) as [en|]; [|discriminate]. intros H. exists en. split; [reflexivity|exact H]. Qed.
+
+(* effect of the tail of _change_oid for oid = None *)
+Lemma oid_finish_none e sd s1 s' : oid_finish true e sd None s1 = Ok s' ->
+  (forall sd', oids s' sd' = oids s1 sd') /\ (forall sd' p o, slot_get s' sd' p o = slot_get s1 sd' p o) /\
+  (forall e' sd', oid_of s' e' sd' = if Nat.eqb e' e && Bool.eqb sd' sd then None else oid_of s1 e' sd') /\
+  (forall e' sd', path_of s' e' sd' = path_of s1 e' sd').
+Proof.
+  unfold oid_finish. intros H. bind_inv H. injection H as <-.
+  apply get_ent_ok in E.
+  set (s2 := if (tchg (s_chg (gs x sd)) && negb (tchg (s_chg (gs x (negb sd)))))%bool then cs_del s1 e else s1).
+  assert (Hv: iview (dirty_add s2 e) = iview s1) by (unfold s2; destruct (_ && _)%bool; reflexivity).
+  apply iview_eq in Hv as [He [Ho Hp]].
+  assert (Hn: nth_error (ents (dirty_add s2 e)) e = Some x) by (unfold s2; destruct (_ && _)%bool; exact E).
+  repeat split.
+  - intros sd'. rewrite oids_raw_side. apply Ho.
+  - intros sd' p o. rewrite slot_get_raw_side. apply slot_get_paths. apply Hp.
+  - intros e' sd'. rewrite oid_of_raw_side, Hn. simpl. destruct (Nat.eqb e' e && Bool.eqb sd' sd)%bool; [reflexivity|apply (proj1 (He e' sd'))].
+  - intros e' sd'. rewrite path_of_raw_side, Hn. simpl.
+    destruct (Nat.eqb_spec e' e) as [->|Hne]; simpl; [|apply (proj2 (He e' sd'))].
+    destruct (Bool.eqb_spec sd' sd) as [->|Hns]; [|apply (proj2 (He e sd'))].
+    rewrite <- (proj2 (He e sd)). unfold path_of. rewrite Hn. reflexivity.
+Qed.
+
+Lemma oid_step_none rec e sd s : oid_step rec e sd None s = Ok s.
+Proof. reflexivity. Qed.
+Lemma oid_step_absent rec e sd ro s : al_get ro (oids s sd) = None -> oid_step rec e sd (Some ro) s = Ok s.
+Proof. intros H. unfold oid_step. rewrite H. reflexivity. Qed.
+
+Lemma exec_oid_none_unindexed E fuel s pe sd ro s' :
+  al_get ro (oids s sd) = None -> oid_of s pe sd = Some ro ->
+  exec E fuel (COid true pe sd None) s = Ok s' ->
+  (forall sd', oids s' sd' = oids s sd') /\ (forall sd' p o, slot_get s' sd' p o = slot_get s sd' p o) /\
+  (forall e' sd', oid_of s' e' sd' = if Nat.eqb e' pe && Bool.eqb sd' sd then None else oid_of s e' sd') /\
+  (forall e' sd', path_of s' e' sd' = path_of s e' sd').
+Proof.
+  intros Habs Ho H. destruct fuel as [|f]; [discriminate|].
+  rewrite exec_oid_eq in H. destruct (oid_of_some_ent _ _ _ _ Ho) as [en [Hen Hoe]].
+  rewrite Hen in H. simpl in H. rewrite Hoe in H. bind_inv H.
+  unfold oid_loop in E0. cbn [ostr_eqb] in E0.
+  unfold pop_swap in E0. destruct (tape s) as [|[b|l] r]; try discriminate. cbn [bind] in E0.
+  assert (Hx: x = st_tape s r).
+  { assert (Ha: al_get ro (oids (st_tape s r) sd) = None) by (destruct sd; exact Habs).
+    destruct b.
+    - rewrite oid_step_none in E0. cbn [bind] in E0. rewrite (oid_step_absent _ _ _ _ _ Ha) in E0. injection E0 as <-. reflexivity.
+    - rewrite (oid_step_absent _ _ _ _ _ Ha) in E0. cbn [bind] in E0. rewrite oid_step_none in E0. injection E0 as <-. reflexivity. }
+  subst x. apply oid_finish_none in H as [H1 [H2 [H3 H4]]].
+  repeat split.
+  - intros sd'. rewrite H1. destruct sd'; reflexivity.
+  - intros sd' p o. rewrite H2. reflexivity.
+  - intros e' sd'. rewrite H3. reflexivity.
+  - intros e' sd'. rewrite H4. reflexivity.
+Qed.
+
+Lemma IdxX_shrink s s' e sd :
+  IdxX s e sd ->
+  (forall sd' k z, al_get k (oids s' sd') = Some z -> al_get k (oids s sd') = Some z /\ oid_of s' z sd' = oid_of s z sd') ->
+  (forall sd' p o z, slot_get s' sd' p o = Some z -> slot_get s sd' p o = Some z /\ oid_of s' z sd' = oid_of s z sd') ->
+  (forall e' sd', path_of s' e' sd' = path_of s e' sd') ->
+  (forall e' sd' o, (e' <> e \/ sd' <> sd) -> oid_of s' e' sd' = Some o ->
+     oid_of s e' sd' = Some o /\ al_get o (oids s' sd') = al_get o (oids s sd') /\
+     forall p, slot_get s' sd' p o = slot_get s sd' p o) ->
+  (found1 s e sd -> found1 s' e sd \/ unindexed s' e sd) ->
+  IdxX s' e sd.
+Proof.
+  intros [H1 [[Ho Hp] H5]] HO HP Hpath Hkeep Hfe. split; [|split; [split|]].
+  - intros e' sd' Hn o Hoid. destruct (Hkeep _ _ _ Hn Hoid) as [Ha [Hb Hc]].
+    destruct (H1 _ _ Hn _ Ha) as [Hd He]. split.
+    + rewrite Hb. exact Hd.
+    + intros p Hp1 Hp2. rewrite Hc. apply He; [rewrite <- Hpath; exact Hp1|exact Hp2].
+  - intros sd' o z H. apply HO in H as [Ha Hb]. rewrite Hb. apply Ho. exact Ha.
+  - intros sd' p o z H. apply HP in H as [Ha Hb]. rewrite Hb, Hpath. apply Hp. exact Ha.
+  - destruct H5 as [H5|[Ha Hb]]; [apply Hfe; exact H5|right]. split.
+    + intros o H. apply HO in H as [H _]. apply (Ha _ H).
+    + intros p o H. apply HP in H as [H _]. apply (Hb _ _ H).
+Qed.
+
+Lemma bool_eqb_refl b : Bool.eqb b b = true.
+Proof. destruct b; reflexivity. Qed.
+
+Lemma oid_step_spec E f e sd ro s s' :
+  IdxX s e sd -> oid_step (exec E f) e sd (Some ro) s = Ok s' ->
+  IdxX s' e sd /\ al_get ro (oids s' sd) = None /\
+  oid_of s' e sd = oid_of s e sd /\ path_of s' e sd = path_of s e sd /\
+  (oid_of s e sd = Some ro -> unindexed s' e sd) /\
+  (unindexed s e sd -> unindexed s' e sd) /\
+  (forall k, al_get k (oids s sd) = None -> al_get k (oids s' sd) = None).
+Proof.
+  intros HX H. unfold oid_step in H.
+  destruct (al_get ro (oids s sd)) as [pe|] eqn:Epe.
+  2:{ injection H as <-.
+      split; [exact HX|]. split; [exact Epe|]. split; [reflexivity|]. split; [reflexivity|].
+      split; [|split; [auto|auto]].
+      intros Hoe. destruct HX as [_ [_ [Hf|Hu]]]; [|exact Hu].
+      destruct (Hf _ Hoe) as [Ha _]. congruence. }
+  bind_inv H. rename x into pn. apply get_ent_ok in E0. rewrite ents_st_oids in E0.
+  destruct HX as [H1 [[Ho Hp] H5]].
+  assert (Hpe: oid_of s pe sd = Some ro) by (apply Ho; exact Epe).
+  set (s1 := st_oids s sd (al_del ro (oids s sd))) in *.
+  set (s2 := match s_path (gs pn sd) with
+             | Some pp => if tstr (Some pp) then slot_pop s1 sd pp (Some ro) else s1
+             | None => s1 end) in *.
+  (* facts about s2 *)
+  assert (HO2: forall sd' k, al_get k (oids s2 sd') = if Bool.eqb sd' sd && str_eqb k ro then None else al_get k (oids s sd')).
+  { intros sd' k. assert (Hx: oids s2 sd' = oids s1 sd').
+    { unfold s2. destruct (s_path (gs pn sd)) as [pp|]; [|reflexivity]. destruct (tstr (Some pp)); [apply oids_slot_pop|reflexivity]. }
+    rewrite Hx. unfold s1. rewrite oids_st_oids. destruct (Bool.eqb sd' sd) eqn:Es; [|reflexivity].
+    apply Bool.eqb_prop in Es. subst sd'. simpl. rewrite al_get_del. reflexivity. }
+  assert (Hents: ents s2 = ents s).
+  { unfold s2. destruct (s_path (gs pn sd)) as [pp|]; [|apply ents_st_oids]. destruct (tstr (Some pp)); [rewrite ents_slot_pop|]; apply ents_st_oids. }
+  assert (Hoid2: forall e' sd', oid_of s2 e' sd' = oid_of s e' sd') by (intros; unfold oid_of; rewrite Hents; reflexivity).
+  assert (Hpath2: forall e' sd', path_of s2 e' sd' = path_of s e' sd') by (intros; unfold path_of; rewrite Hents; reflexivity).
+  assert (Hppe: path_of s pe sd = s_path (gs pn sd)) by (unfold path_of; rewrite E0; reflexivity).
+  assert (HP2: forall sd' p o z, slot_get s2 sd' p o = Some z -> slot_get s sd' p o = Some z /\ ~ (sd' = sd /\ o = ro /\ z = pe)).
+  { intros sd' p o z Hz. unfold s2 in Hz. destruct (s_path (gs pn sd)) as [pp|] eqn:Epp.
+    - destruct (tstr (Some pp)) eqn:Et.
+      + rewrite slot_get_slot_pop in Hz. unfold s1 in Hz. rewrite slot_get_st_oids in Hz.
+        destruct (Bool.eqb sd' sd && str_eqb p pp && str_eqb o ro)%bool eqn:Ec; [discriminate|].
+        split; [exact Hz|]. intros [-> [-> ->]]. apply Hp in Hz as [_ [Hz _]]. rewrite Hppe in Hz. injection Hz as ->.
+        rewrite bool_eqb_refl, !str_eqb_refl in Ec. discriminate.
+      + unfold s1 in Hz. rewrite slot_get_st_oids in Hz. split; [exact Hz|]. intros [-> [-> ->]].
+        apply Hp in Hz as [_ [Hz Hne]]. rewrite Hppe in Hz. injection Hz as ->. destruct p; [apply Hne; reflexivity|discriminate].
+    - unfold s1 in Hz. rewrite slot_get_st_oids in Hz. split; [exact Hz|]. intros [-> [-> ->]].
+      apply Hp in Hz as [_ [Hz _]]. rewrite Hppe in Hz. discriminate. }
+  assert (HP2k: forall sd' p o, ~ (sd' = sd /\ o = ro) -> slot_get s2 sd' p o = slot_get s sd' p o).
+  { intros sd' p o Hn. unfold s2. destruct (s_path (gs pn sd)) as [pp|]; [destruct (tstr (Some pp))|]; unfold s1;
+      try (rewrite slot_get_slot_pop); rewrite ?slot_get_st_oids; try reflexivity.
+    destruct (Bool.eqb_spec sd' sd) as [->|]; simpl; [|reflexivity].
+    destruct (str_eqb p pp); simpl; [|reflexivity].
+    destruct (str_eqb_spec o ro) as [->|]; [exfalso; apply Hn; split; reflexivity|reflexivity]. }
+  (* who else can carry ro on side sd?  nobody but pe, as long as it is found *)
+  assert (Hother: forall e', (e' <> e \/ sd <> sd) -> oid_of s e' sd = Some ro -> e' = pe).
+  { intros e' Hn Hoe. destruct (H1 _ _ Hn _ Hoe) as [Ha _]. congruence. }
+  destruct (Nat.eqb_spec pe e) as [->|Hne].
+  - (* the entry itself *)
+    injection H as <-.
+    assert (Hun: unindexed s2 e sd).
+    { split.
+      - intros o Hc. rewrite HO2, bool_eqb_refl in Hc. cbn [andb] in Hc.
+        destruct (str_eqb o ro) eqn:Eo; [discriminate|].
+        apply Ho in Hc. rewrite Hpe in Hc. injection Hc as Hc. subst o. rewrite str_eqb_refl in Eo. discriminate.
+      - intros p o Hc. apply HP2 in Hc as [Hc Hn]. apply Hn. split; [reflexivity|split; [|reflexivity]].
+        apply Hp in Hc as [Hc _]. congruence. }
+    split; [|split; [|split; [|split; [|split; [|split]]]]].
+    + apply (IdxX_shrink s); [split; [exact H1|split; [split; assumption|exact H5]]| | | | |].
+      * intros sd' k z Hz. rewrite HO2 in Hz. destruct (Bool.eqb sd' sd && str_eqb k ro)%bool; [discriminate|].
+        split; [exact Hz|apply Hoid2].
+      * intros sd' p o z Hz. apply HP2 in Hz as [Hz _]. split; [exact Hz|apply Hoid2].
+      * exact Hpath2.
+      * intros e' sd' o Hn Hoe. rewrite Hoid2 in Hoe. split; [exact Hoe|].
+        assert (Hk: ~ (sd' = sd /\ o = ro)).
+        { intros [-> ->]. pose proof (Hother _ Hn Hoe) as Heq. subst e'.
+          destruct Hn as [Hn|Hn]; apply Hn; reflexivity. }
+        split.
+        -- rewrite HO2. destruct (Bool.eqb_spec sd' sd) as [->|]; simpl; [|reflexivity].
+           destruct (str_eqb_spec o ro) as [->|]; [exfalso; apply Hk; split; reflexivity|reflexivity].
+        -- intros p. apply HP2k. exact Hk.
+      * intros _. right. exact Hun.
+    + rewrite HO2, bool_eqb_refl, str_eqb_refl. reflexivity.
+    + apply Hoid2.
+    + apply Hpath2.
+    + intros _. exact Hun.
+    + intros _. exact Hun.
+    + intros k Hk. rewrite HO2, Hk. destruct (_ && _)%bool; reflexivity.
+  - (* another entry holds ro: it loses its id through the intercepted setter *)
+    assert (Habs: al_get ro (oids s2 sd) = None) by (rewrite HO2, bool_eqb_refl, str_eqb_refl; reflexivity).
+    assert (Hpe2: oid_of s2 pe sd = Some ro) by (rewrite Hoid2; exact Hpe).
+    destruct (exec_oid_none_unindexed _ _ _ _ _ _ _ Habs Hpe2 H) as [HO3 [HP3 [Hoid3 Hpath3]]].
+    assert (Hoe: forall sd', oid_of s' e sd' = oid_of s e sd').
+    { intros sd'. rewrite Hoid3, Hoid2. destruct (Nat.eqb_spec e pe) as [->|]; [contradiction|reflexivity]. }
+    assert (HXs: IdxX s' e sd).
+    { apply (IdxX_shrink s); [split; [exact H1|split; [split; assumption|exact H5]]| | | | |].
+      - intros sd' k z Hz. rewrite HO3, HO2 in Hz. destruct (Bool.eqb sd' sd && str_eqb k ro)%bool eqn:Ec; [discriminate|].
+        split; [exact Hz|]. rewrite Hoid3, Hoid2.
+        destruct (Nat.eqb_spec z pe) as [->|]; simpl; [|reflexivity].
+        destruct (Bool.eqb_spec sd' sd) as [->|]; [|reflexivity].
+        apply Ho in Hz. rewrite Hpe in Hz. injection Hz as <-. simpl in Ec. rewrite str_eqb_refl in Ec. discriminate.
+      - intros sd' p o z Hz. rewrite HP3 in Hz. apply HP2 in Hz as [Hz Hn]. split; [exact Hz|].
+        rewrite Hoid3, Hoid2. destruct (Nat.eqb_spec z pe) as [->|]; simpl; [|reflexivity].
+        destruct (Bool.eqb_spec sd' sd) as [->|]; [|reflexivity].
+        exfalso. apply Hn. split; [reflexivity|split; [|reflexivity]].
+        apply Hp in Hz as [Hz _]. congruence.
+      - intros e' sd'. rewrite Hpath3. apply Hpath2.
+      - intros e' sd' o Hn Hoe'. rewrite Hoid3, Hoid2 in Hoe'.
+        destruct (Nat.eqb e' pe && Bool.eqb sd' sd)%bool eqn:Ec; [discriminate|].
+        split; [exact Hoe'|].
+        assert (Hk: ~ (sd' = sd /\ o = ro)).
+        { intros [-> ->]. assert (e' = pe).
+          { destruct (H1 _ _ Hn _ Hoe') as [Ha _]. congruence. }
+          subst e'. rewrite Nat.eqb_refl, bool_eqb_refl in Ec. discriminate. }
+        split.
+        + rewrite HO3, HO2. destruct (Bool.eqb_spec sd' sd) as [->|]; simpl; [|reflexivity].
+          destruct (str_eqb_spec o ro) as [->|]; [exfalso; apply Hk; split; reflexivity|reflexivity].
+        + intros p. rewrite HP3. apply HP2k. exact Hk.
+      - intros Hf. left. intros o Hoo. rewrite Hoe in Hoo. destruct (Hf _ Hoo) as [Ha Hb].
+        assert (Hk: ~ (sd = sd /\ o = ro)) by (intros [_ ->]; congruence).
+        split.
+        + rewrite HO3, HO2, bool_eqb_refl. simpl. destruct (str_eqb_spec o ro) as [->|]; [exfalso; apply Hk; split; reflexivity|exact Ha].
+        + intros p Hp1 Hp2. rewrite HP3, (HP2k _ _ _ Hk). apply Hb; [|exact Hp2].
+          rewrite Hpath3, Hpath2 in Hp1. exact Hp1. }
+    assert (Hunp: unindexed s e sd -> unindexed s' e sd).
+    { intros [Ha Hb]. split.
+      - intros o Hc. rewrite HO3, HO2 in Hc. destruct (_ && _)%bool; [discriminate|]. apply (Ha _ Hc).
+      - intros p o Hc. rewrite HP3 in Hc. apply HP2 in Hc as [Hc _]. apply (Hb _ _ Hc). }
+    split; [|split; [|split; [|split; [|split; [|split]]]]].
+    + exact HXs.
+    + rewrite HO3. exact Habs.
+    + apply Hoe.
+    + rewrite Hpath3. apply Hpath2.
+    + intros Hc. destruct H5 as [Hf|Hu]; [|apply Hunp; exact Hu].
+      destruct (Hf _ Hc) as [Ha _]. congruence.
+    + exact Hunp.
+    + intros k Hk. rewrite HO3, HO2, Hk. destruct (_ && _)%bool; reflexivity.
 Qed.
